@@ -41,6 +41,14 @@ theorem C13_unary_positions (u : UnOp) (a : V) : unVal u a = .ok none ↔ a = no
   rw [unVal_spec]
   cases a <;> simp [unSpec]
 
+/-- The final test of `FormulaEvaluator.apply` (extracted from the source): a result that is not finite — NaN, +inf
+or -inf, e.g. an overflowing product or a division by a subnormal — is replaced by `None`, a finite one is emitted. -/
+theorem C13_final_test :
+    Extracted.Formula.resultIsNone .nan = true ∧ (∀ n, Extracted.Formula.resultIsNone (.inf n) = true) ∧
+    (∀ q, Extracted.Formula.resultIsNone (.finite q) = false) := by
+  refine ⟨by decide, fun n => by cases n <;> decide, fun q => ?_⟩
+  simp [Extracted.Formula.resultIsNone, PyF.isnanC, PyF.isinfC, PyF.isfiniteC]
+
 /-- Evaluating any expression tree never raises and yields exactly what the property demands. -/
 theorem C13_eval (zf : Nat → Bool) (env : Env) (a : Ast) : evalAst zf env a = .ok (expected zf env a) :=
   evalAst_expected zf env a
